@@ -46,6 +46,9 @@ type RPCSetNodeKeyValueResponse struct {
 
 func (c *ClusterNode) RPCSetNodeKeyValue(args *RPCSetNodeKeyValueRequest, reply *RPCSetNodeKeyValueResponse) error {
 	c.logger.Debug().Int("kvCount", len(args.KeyValues)).Str("Bucket", args.Bucket).Msg("RPCSetNodeKeyValue")
+	if err := verifSetNodeKeyValue(c, args); err != nil {
+		return err
+	}
 	if args.Dest != c.MyHostname {
 		return c.internalRoute("ClusterNode.RPCSetNodeKeyValue", args, reply)
 	}
